@@ -108,6 +108,13 @@ pub fn run_onion(rng: &mut Rng, a: &Value) -> Value {
 	let bytes: [u8; 32] = match class.as_str() {
 		"zero" => [0u8; 32],
 		"ones" => [0xffu8; 32],
+		// lead<i>: a key whose text form starts with the i-th base32 character (top five bits = i)
+		c if c.starts_with("lead") => {
+			let i: u8 = c[4..].parse().unwrap_or(0) & 31;
+			let mut b = *mat::dalek_pub(&mat::dalek_secret(rng)).as_bytes();
+			b[0] = (i << 3) | (b[0] & 7);
+			b
+		}
 		_ => *mat::dalek_pub(&mat::dalek_secret(rng)).as_bytes(),
 	};
 	let addr = OnionV3Address::from_bytes(bytes);
